@@ -231,6 +231,7 @@ def pipeline(ctx, pid, extra_classes=()):
     if bad is None:
         return rows
     ctx.cov["histories_compared_with_model"] = len(rows)
+    ctx.cov["traces_validated_against_impl"] = len(rows)
     ctx.cov["model_mismatches"] = len(bad)
     for i, step in bad[:3]:
         h = rows[i]
